@@ -1,3 +1,5 @@
+#[cfg(feature = "iggy_verif")]
+use iggy::verif::tokio;
 use super::PersisterTask;
 use crate::streaming::batching::message_batch::RetainedMessageBatch;
 use error_set::ErrContext;
